@@ -88,6 +88,7 @@ type Spec struct {
 	Ret    string
 	Body   Expr
 	Rec    bool // recursive: declared uninterpreted, unfolded only by explicit hints
+	Opaque bool // an uninterpreted symbol unless revealed (reveal clause) in the function under verification
 }
 
 type Ufun struct {
@@ -112,6 +113,7 @@ type FuncContract struct {
 	Line     int
 	Lemmas   []*Clause
 	Unfold   []Expr // function-level unfold hints (applied at entry and at every return)
+	Reveal   []Expr // applications of opaque specs whose definition is assumed at entry
 }
 
 type LoopContract struct {
@@ -609,7 +611,7 @@ func parseModItem(s string) (ModItem, error) {
 	return mi, nil
 }
 
-var clauseKeywords = map[string]bool{"unfold": true, "defines": true, "justify": true, "requires": true, "ensures": true, "modifies": true, "loop": true, "rank": true, "inline": true, "cost": true, "lemma": true, "trusted": true}
+var clauseKeywords = map[string]bool{"reveal": true, "unfold": true, "defines": true, "justify": true, "requires": true, "ensures": true, "modifies": true, "loop": true, "rank": true, "inline": true, "cost": true, "lemma": true, "trusted": true}
 
 func loadContracts(path string) (*Contracts, error) {
 	data, err := os.ReadFile(path)
@@ -640,7 +642,7 @@ func loadContracts(path string) (*Contracts, error) {
 		if k := strings.IndexAny(bt, " \t"); k >= 0 {
 			first = bt[:k]
 		}
-		if first == "spec" || first == "specrec" || first == "func" || first == "axiom" || first == "ufun" || clauseKeywords[first] {
+		if first == "spec" || first == "specrec" || first == "specopaque" || first == "func" || first == "axiom" || first == "ufun" || clauseKeywords[first] {
 			raws = append(raws, rawClause{bt, i + 1})
 		} else {
 			if len(raws) == 0 {
@@ -660,7 +662,7 @@ func loadContracts(path string) (*Contracts, error) {
 		}
 		fail := func(err error) error { return fmt.Errorf("contracts line %d: %v", rc.line, err) }
 		switch first {
-		case "spec", "specrec":
+		case "spec", "specrec", "specopaque":
 			// name(params) type = expr
 			k := strings.IndexByte(rest, '(')
 			name := strings.TrimSpace(rest[:k])
@@ -682,7 +684,7 @@ func loadContracts(path string) (*Contracts, error) {
 			eq := strings.Index(after, "=")
 			ret := strings.TrimSpace(after[:eq])
 			bodyS := strings.TrimSpace(after[eq+1:])
-			sp := &Spec{Name: name, Ret: ret, Rec: first == "specrec"}
+			sp := &Spec{Name: name, Ret: ret, Rec: first == "specrec", Opaque: first == "specopaque"}
 			if strings.TrimSpace(ps) != "" {
 				for _, p := range strings.Split(ps, ",") {
 					f := strings.Fields(p)
@@ -738,6 +740,12 @@ func loadContracts(path string) (*Contracts, error) {
 					return nil, fail(err)
 				}
 				cur.Unfold = append(cur.Unfold, e)
+			case "reveal":
+				e, err := parseExprString(rest)
+				if err != nil {
+					return nil, fail(err)
+				}
+				cur.Reveal = append(cur.Reveal, e)
 			case "justify":
 				cur.Justify = strings.TrimSpace(rest)
 			case "defines":
